@@ -355,7 +355,12 @@ def judge (mode : Nat) (kv : KV) : Verdict :=
   let base := ViD.judge 0 kv
   let c := parseCase kv
   if c.crashed then base else
-  let (errs, n, m) := if mode == 7 then (let (e, n) := judge07 c; (e, n, 0)) else if mode == 13 then judge13 c else if mode == 19 then (let (e, n) := judge19 c; (e, n, 0)) else ([], 0, 0)
+  let quitErr : List String :=
+    if mode != 5 then [] else
+    match c.impl.getLast? with
+    | some r => if r.mark == "Q" then [] else [s!"clause=reaches_the_quit_it_is_given end={r.mark} kpos={r.bd.kpos} of {c.keys.length}"]
+    | none => ["clause=reaches_the_quit_it_is_given no result"]
+  let (errs, n, m) := if mode == 5 then (quitErr, 0, 0) else if mode == 7 then (let (e, n) := judge07 c; (e, n, 0)) else if mode == 13 then judge13 c else if mode == 19 then (let (e, n) := judge19 c; (e, n, 0)) else ([], 0, 0)
   { base with specfails := (errs.take 3).map (fun s => (s.take 400).toString),
               tags := base.tags ++ (List.replicate n "judged") ++ (List.replicate m "found") }
 
